@@ -37,7 +37,45 @@ def plan(tier, seed, batch):
     return [{"index": batch * 100000 + i, "seed": seed, "tier": tier} for i in range(n)]
 
 
+def tie_bait(rw):
+    """Blocks in which the candidates differ in the secondary criteria only: a cheap (2-gas) environment opcode that is duplicated,
+    next to a small constant that is reused through DUP -- recomputing the first saves gas, re-pushing the second costs a byte,
+    the instruction count stays the same."""
+    from gsim.work import blocks as B
+    env = rw.choice(["CALLVALUE", "CALLER", "ADDRESS", "NUMBER", "TIMESTAMP", "CALLDATASIZE", "CHAINID", "GASPRICE"])
+    c = rw.choice([0x20, 0x40, 0x4, 0xff, 0x100, 0xffff])
+    items = [("PUSH", "%x" % c), (env, None), ("DUP1", None)]
+    h = 3 + 5
+    extra = []
+    for _ in range(rw.choice([1, 2, 3])):
+        if rw.random() < 0.5:
+            extra.append(("DUP%d" % (len(items) + len(extra)), None))     # reaches the constant
+        else:
+            extra.append(("DUP%d" % rw.randrange(len(items) + len(extra) + 1, len(items) + len(extra) + 4), None))
+    items += extra
+    items.append((rw.choice(["ADD", "AND", "OR", "LT", "SUB", "MUL"]), None))
+    if rw.random() < 0.4:
+        items += [("SWAP1", None), ("POP", None)]
+    return items
+
+
 def build_op(spec):
+    if spec["index"] % 6 == 5:
+        from gsim.core.prng import stream
+        from gsim.work import options as O
+        rw = stream(spec["seed"], spec["index"], "workload")
+        ro = stream(spec["seed"], spec["index"], "options")
+        flags, desc = O.draw(ro, backend="-greedy")
+        flags = [f for f in flags if f not in ("-size", "-length")]
+        crit = rw.choice(["-length", "-length", "-size", None])
+        if crit:
+            flags.append(crit)
+        desc["crit"] = crit.lstrip("-") if crit else "gas"
+        bl = [tie_bait(rw) + [("PUSH", "%x" % rw.randrange(1, 200)), ("JUMP", None)] for _ in range(6)]
+        op = C.bl_op(bl, flags)
+        op["desc"] = desc
+        op["fmt"] = "bl"
+        return op
     op = C.build_pipe_op(spec, peer_kinds=TEMPT, mix=(4, 2, 4))
     for e in op.get("peer_plan", []):
         if e["kind"] == "skewed":
